@@ -49,7 +49,10 @@ func (p *Prog) Method(n *types.Named, name string) *ssa.Function {
 	if n == nil {
 		return nil
 	}
-	for _, t := range []types.Type{types.NewPointer(n), n} {
+	if f := p.DeclMethod(n, name); f != nil {
+		return f
+	}
+	for _, t := range []types.Type{n, types.NewPointer(n)} {
 		ms := p.SSA.MethodSets.MethodSet(t)
 		for i := 0; i < ms.Len(); i++ {
 			if ms.At(i).Obj().Name() == name {
